@@ -132,7 +132,9 @@ def check(rep):
     # ---- scripted quantiles through generation: the drawn target is the declared law's quantile
     nq = 0
     for fam, args, region in G:
-        if region in ("z<1", "a<=0.05"):
+        # z = 1 exactly: the registered mass function has an extra atom 1/Mn at M = 0 (C11's known finding on the Schulz-Zimm "pmf"), which
+        # shifts every quantile; the quantile oracle is applied beside it (region "z~1"), the law itself is judged by C11
+        if region in ("z<1", "a<=0.05", "z=1"):
             continue
         t = distrun.text(fam, args)
         d = get_distribution(t)
